@@ -32,4 +32,41 @@ PROPS = {
             "memory safety of the MaybeUninit storage is not derived from the model beyond slot states and the drop log",
         ],
     ),
+    "VM": dict(
+        prop_file="Properties/VM.v",
+        check_module="VmCheck",
+        theorems={
+            "VM_run_total": [],
+            "VM_run_deterministic": [],
+            "VM_budget_bound": [],
+            "VM_timeout_reported": [],
+            "VM_timeout_reported_run": [],
+            "VM_budget_monotone": [],
+            "VM_count_monotone": [],
+            "VM_step_count_rel": [],
+            "VM_budget_bound_nested_refuted": [],
+        },
+        n_quick=200, n_thorough=2000,
+        gates=["feature.closure", "feature.reentry", "feature.foreach", "feature.call", "feature.real",
+               "outcome.ETimeout", "outcome.Panic", "outcome.ETaskFailure", "outcome.ECallStackOverflow",
+               "mode.history", "budget.zero", "need.found"],
+        rule="development aid (not a registered property): the crate's own compile output of a hand-written corpus and "
+             "of randomly generated card programs (arithmetic, locals/globals, if/while/repeat/for-each, tables, calls, "
+             "recursion, dynamic calls, closures, natives incl. re-entry through run_function) is run on the real VM "
+             "with budgets {generous, need-1, need, need+1, random, 1, sometimes 0} (need = least budget without "
+             "Timeout, found by bisection) on fresh VMs, or repeatedly on one VM; outcome variant with payload fields "
+             "and error trace, every global by name as a canonical tree, and the host log are compared with Vm.v; "
+             "non-trivial = at least one run completes or more than 3 runs; distinct = distinct case term",
+        trusted_base=COMMON_TB + [
+            "modelled, not verified: vm.rs, vm/instr_execution.rs, vm/runtime.rs (no GC: the harness gives the VM a "
+            "1 GiB limit so that no collection runs), cao_lang_table.rs over an abstract map, value.rs, traits.rs",
+            "Flocq binary64 (VmFloat.v) is used by the checker only; the theorems are generic in the float instance",
+        ],
+        assumptions=[
+            "theorems about `run_flat` concern runs whose natives do not re-enter the interpreter; for `run` the bound "
+            "is refuted (A-11)",
+            "32-bit FNV collisions between unequal table keys, table keys mutated after insertion, UTF-8 validity of "
+            "string data and garbage collection are outside the model",
+        ],
+    ),
 }
